@@ -42,6 +42,7 @@ file/line orderings of the same multiset.
 from __future__ import annotations
 
 import asyncio
+import contextvars
 import copy
 import functools
 import glob as _real_glob
@@ -159,7 +160,7 @@ REACH_PROBES = [
     "options_dialog_without_change", "option_changed_with_nonempty_record", "options_dialog_refused_for_yaml_entry",
     "other_setting_changed", "yaml_extra_key_changed", "run_after_config_change",
 ]
-SHRINK_LISTS = [["ops"], ["spec", "files"], ["spec", "files", "*", "lines"]]
+SHRINK_LISTS = [["ops"], ["spec", "files"], ["spec", "files", "*", "lines"], ["ops", "*", "runs"]]
 
 UNPINNED = "_unpinned_version"
 CONF_INSTALLED = "_installed_packages"
@@ -189,6 +190,12 @@ PATH_POOL = [
     "pyscript/scripts/dir2/requirements.txt",
 ]
 MAX_RUN_OPS = 4
+
+# the run of install_requirements the current task is in (runs may overlap: one record per run, found through the
+# task's context: the glob job runs inline in the calling task, the installer is awaited by it)
+_CUR = contextvars.ContextVar("c20_cur_run", default=None)
+# how the driver issued the call the current task is carrying out (only set for the runs of an overlap group)
+_CALL = contextvars.ContextVar("c20_call", default=None)
 
 
 # ====================================================================== reference semantics
@@ -389,6 +396,140 @@ def _gen_pip(rng: random.Random, pkgs: list[str], partial: bool) -> dict:
     return {"mode": "pkgs", "pkgs": sorted(rng.sample(pkgs, rng.randint(1, max(1, len(pkgs) - 1))))}
 
 
+def _gen_edit(rng: random.Random, model: dict, pkgs: list[str], exotic: bool, max_lines: int) -> dict:
+    """An edit of the requirement files (the fields of a write / delete op); keeps ``model`` up to date."""
+    if rng.random() < 0.2 and len(model) > 0:
+        path = rng.choice(sorted(model))
+        del model[path]
+        return {"kind": "delete", "path": path}
+    sub = rng.random()
+    sup_lines = [(pth, i) for pth in sorted(model) for i, ln in enumerate(model[pth])
+                 if classify(ln)["kind"] in ("pin", "unpinned")]
+    if sub < 0.5 and sup_lines:
+        # another version is pinned / an unpinned requirement gets a pin
+        pth, i = rng.choice(sup_lines)
+        cls = classify(model[pth][i])
+        lines = list(model[pth])
+        lines[i] = f"{cls['name']}=={rng.choice([v for v in PIN_POOL if v != cls.get('version')])}"
+    elif sub < 0.8 and model:
+        pth = rng.choice(sorted(model))
+        lines = _gen_lines(rng, pkgs, exotic, max_lines)
+    else:
+        free = [p for p in PATH_POOL if p not in model]
+        pth = rng.choice(free) if free and len(model) < 4 else rng.choice(sorted(model) or PATH_POOL)
+        lines = _gen_lines(rng, pkgs, exotic, max_lines)
+    model[pth] = list(lines)
+    return {"kind": "write", "path": pth, "lines": lines}
+
+
+class _Pred:
+    """What a run of install_requirements that follows the property would leave behind, tracked while a history is
+    generated.  Only used to aim operations at packages in a state in which they mean something (a package pyscript
+    owns, a package the host took over, ...); nothing is judged with it and every aimed operation re-checks its
+    precondition against the simulated world when it is carried out."""
+
+    def __init__(self, table: dict, record: dict, index: dict, allow: bool) -> None:
+        self.table = {p: list(v) for p, v in table.items()}
+        self.last_py = dict(record)
+        self.index = dict(index)
+        self.allow = allow
+        self.seen_foreign: set = set()
+
+    def own(self) -> list[str]:
+        return sorted(p for p, v in self.table.items() if v[1] == "pyscript")
+
+    def run(self, model: dict) -> None:
+        if not self.allow:
+            return
+        ref = resolve([ln for p in sorted(model) for ln in model[p]])
+        for name in sorted(set(ref["sel"]) - ref["open"]):
+            exp = ref["sel"][name]
+            have = self.table.get(name)
+            if name not in self.index:
+                continue
+            if have is None or (have[1] == "pyscript" and exp["pinned"] and not same_version(have[0], exp["v"])):
+                ver = exp["v"] if exp["pinned"] else self.index[name]
+                self.table[name] = [ver, "pyscript"]
+                self.last_py[name] = ver
+                self.seen_foreign.discard(name)
+            elif have[1] == "host" and name in self.last_py and not same_version(have[0], self.last_py[name]):
+                self.seen_foreign.add(name)
+
+    def apply(self, op: dict) -> None:
+        kind = op["kind"]
+        if kind == "ext_install":
+            pkg = op["pkg"]
+            ver = op["v"]
+            have = self.table.get(pkg)
+            if op.get("restore") and pkg in self.seen_foreign and (have is None or have[1] == "host"):
+                ver = self.last_py[pkg]
+            self.table[pkg] = [ver, "host"]
+        elif kind == "ext_remove":
+            self.table.pop(op["pkg"], None)
+        elif kind == "index":
+            self.index[op["pkg"]] = op["v"]
+        elif kind == "allow":
+            self.allow = bool(op["v"])
+
+
+def _gen_story_op(rng: random.Random, pred: _Pred, model: dict, pkgs: list[str]) -> dict | None:
+    """The next step in the ownership history of a package: the host changes a package pyscript installed; once a
+    run has seen that, the host happens to install the version pyscript had installed; then the user pins another
+    version of it."""
+    ref = resolve([ln for p in sorted(model) for ln in model[p]])
+    cands: list[tuple[int, dict]] = []
+    for pkg in pkgs:
+        have = pred.table.get(pkg)
+        last = pred.last_py.get(pkg)
+        if pkg in pred.seen_foreign and last is not None and (have is None or have[1] == "host"):
+            if have is not None and same_version(have[0], last):
+                exp = ref["sel"].get(pkg)
+                if exp is not None and exp["pinned"] and not same_version(exp["v"], last):
+                    continue  # the next run meets the situation
+                vers = [v for v in PIN_POOL if not same_version(v, last)]
+                spots = [(pth, i) for pth in sorted(model) for i, ln in enumerate(model[pth])
+                         if classify(ln).get("name") == pkg and classify(ln)["kind"] in ("pin", "unpinned")]
+                if spots:
+                    pth, i = spots[0]
+                    lines = list(model[pth])
+                    lines[i] = f"{pkg}=={rng.choice(vers)}"
+                else:
+                    pth = sorted(model)[0] if model else PATH_POOL[0]
+                    lines = list(model.get(pth, [])) + [f"{pkg}=={rng.choice(vers)}"]
+                cands.append((6, {"kind": "write", "path": pth, "lines": lines}))
+            else:
+                cands.append((4, {"kind": "ext_install", "pkg": pkg, "v": rng.choice(HOST_POOL), "pin": False,
+                                  "restore": True}))
+        elif have is not None and have[1] == "pyscript":
+            cands.append((2, {"kind": "ext_install", "pkg": pkg, "v": rng.choice(HOST_POOL), "pin": False}))
+    if not cands:
+        return None
+    total = sum(wgt for wgt, _ in cands)
+    roll = rng.random() * total
+    for wgt, op in cands:
+        roll -= wgt
+        if roll < 0:
+            return op
+    return cands[-1][1]
+
+
+def _gen_overlap(rng: random.Random, model: dict, pkgs: list[str], exotic: bool, max_lines: int) -> dict:
+    """Two or three runs of install_requirements that are issued while the earlier ones may still be suspended in
+    the glob job or in the installer, with edits of the requirement files in between."""
+    runs = []
+    for i in range(rng.choice([2, 2, 2, 3])):
+        run = {"how": rng.choice(["reload", "reload", "direct"]),
+               "after": 0.0 if i == 0 else rng.choice([0.0, 0.05, 0.25, 0.5, 1.0, 2.5]),
+               "pre": rng.choice([0.0, 0.25, 0.75, 1.5]), "post": rng.choice([0.0, 0.25, 0.75, 1.5]),
+               "edits": []}
+        if rng.random() < (0.65 if i > 0 else 0.5):
+            for _ in range(rng.choice([1, 1, 2])):
+                run["edits"].append(_gen_edit(rng, model, pkgs, exotic, max_lines))
+        runs.append(run)
+    return {"kind": "overlap", "serial": rng.random() < 0.6,
+            "exec_ms": rng.choice([[0.0, 0.0], [0.0, 30.0], [50.0, 400.0], [200.0, 1500.0]]), "runs": runs}
+
+
 def gen(rng: random.Random, tier: str) -> dict:
     conf = TIERS[tier]
     cfg = gen_cfg(rng, legacy=False)
@@ -433,9 +574,15 @@ def gen(rng: random.Random, tier: str) -> dict:
         yaml_bools = {name: rng.random() < 0.5 for name in CONF_BOOLS}
     cfg["hass_is_global"] = rng.random() < 0.3
     p_config = 0.24 if ui else 0.10
+    # "steer" coin: in 3 of 10 histories the operations prefer the next step in the ownership history of a package
+    # (pyscript installs it - the host changes it - a run sees that - the host happens to install the version
+    # pyscript had installed - the user pins another version), which random choices alone hardly ever complete
+    steer = rng.random() < 0.30
+    pred = _Pred(table, record if prior else {}, index, cfg[CONF_ALLOW])
+    pred.run(model)  # run 0 = set-up
     ops: list[dict] = []
-    for _ in range(rng.choice([0, 1, 2, 2, 3, 4])):
-        for _ in range(rng.choice([0, 1, 1, 2, 3])):
+    for _ in range(rng.choice([2, 3, 3, 4]) if steer else rng.choice([0, 1, 2, 2, 3, 4])):
+        for _ in range(rng.choice([1, 2, 2, 3]) if steer else rng.choice([0, 1, 1, 2, 3])):
             op: dict = {"dt": 0.25 * rng.randint(1, 8)}
             if pip_faults and rng.random() < 0.3:
                 op.update({"kind": "pip"})
@@ -450,12 +597,24 @@ def gen(rng: random.Random, tier: str) -> dict:
                            "v": rng.randrange(3) if what == "extra" else int(rng.random() < 0.6)})
                 ops.append(op)
                 continue
+            if steer and rng.random() < 0.7:
+                story = _gen_story_op(rng, pred, model, pkgs)
+                if story is not None:
+                    op.update(story)
+                    if story["kind"] == "write":
+                        model[story["path"]] = list(story["lines"])
+                    pred.apply(op)
+                    ops.append(op)
+                    continue
             roll = rng.random()
             if roll < 0.22:
                 # "pin": the host installs the very version the files pin at that moment, if pyscript did not
-                # install that version itself (else, and without a pin: "v")
+                # install that version itself (else, and without a pin: "v"); "restore": the host installs the
+                # version pyscript installed last, if a completed run has seen another version since (else: "v")
                 op.update({"kind": "ext_install", "pkg": rng.choice(pkgs), "v": rng.choice(HOST_POOL),
                            "pin": rng.random() < 0.3})
+                if rng.random() < 0.15:
+                    op["restore"] = True
             elif roll < 0.36:
                 op.update({"kind": "ext_remove", "pkg": rng.choice(pkgs)})
             elif roll < 0.46:
@@ -469,12 +628,13 @@ def gen(rng: random.Random, tier: str) -> dict:
             else:
                 sub = rng.random()
                 pin_lines = [(pth, i) for pth in sorted(model) for i, ln in enumerate(model[pth])
-                             if classify(ln)["kind"] == "pin"]
+                             if classify(ln)["kind"] in ("pin", "unpinned" if sub < 0.12 else "pin")]
                 if sub < 0.5 and pin_lines:
+                    # another version is pinned (sub < 0.12: or an unpinned requirement gets a pin)
                     pth, i = rng.choice(pin_lines)
                     cls = classify(model[pth][i])
                     lines = list(model[pth])
-                    lines[i] = f"{cls['name']}=={rng.choice([v for v in PIN_POOL if v != cls['version']])}"
+                    lines[i] = f"{cls['name']}=={rng.choice([v for v in PIN_POOL if v != cls.get('version')])}"
                 elif sub < 0.8 and model:
                     pth = rng.choice(sorted(model))
                     lines = _gen_lines(rng, pkgs, exotic, conf["max_lines"])
@@ -484,9 +644,15 @@ def gen(rng: random.Random, tier: str) -> dict:
                     lines = _gen_lines(rng, pkgs, exotic, conf["max_lines"])
                 model[pth] = list(lines)
                 op.update({"kind": "write", "path": pth, "lines": lines})
+            pred.apply(op)
             ops.append(op)
-        ops.append({"dt": 0.25 * rng.randint(1, 8), "kind": "run",
-                    "how": rng.choice(["reload", "reload", "reload", "restart", "restart", "direct"])})
+        if rng.random() < 0.2:
+            # overlapping runs instead of a single one
+            ops.append({"dt": 0.25 * rng.randint(1, 8), **_gen_overlap(rng, model, pkgs, exotic, conf["max_lines"])})
+        else:
+            ops.append({"dt": 0.25 * rng.randint(1, 8), "kind": "run",
+                        "how": rng.choice(["reload", "reload", "reload", "restart", "restart", "direct"])})
+        pred.run(model)
     spec = {
         "tier": tier, "pkgs": pkgs, "files": files, "table": table, "index": index, "record": record, "prior_entry": prior,
         "record_key_present": rng.random() < 0.5, "eol": rng.random() < 0.8, "exotic": exotic,
@@ -542,10 +708,21 @@ def normalize(scn: dict) -> dict | None:
     n_runs = 0
     ops = []
     for op in scn["ops"]:
-        if op["kind"] == "run":
+        if op["kind"] in ("run", "overlap"):
             n_runs += 1
             if n_runs > MAX_RUN_OPS:
                 continue
+        if op["kind"] == "overlap":
+            if not op.get("runs"):
+                continue
+            if len(op["runs"]) == 1:
+                # a single run is not an overlap group: its edits, then an ordinary run
+                only = op["runs"][0]
+                for ed in only.get("edits") or []:
+                    ops.append({"dt": 0.25, **ed})
+                ops.append({"dt": op.get("dt", 0.25), "kind": "run", "how": only.get("how", "reload")})
+                continue
+            op["runs"] = op["runs"][:3]
         ops.append(op)
     scn["ops"] = ops
     return scn
@@ -633,6 +810,38 @@ def simplify(scn: dict):
                 cand = copy.deepcopy(scn)
                 del cand["ops"][oi]["lines"][li]
                 yield cand
+        if op["kind"] == "ext_install" and op.get("restore"):
+            cand = copy.deepcopy(scn)
+            cand["ops"][oi]["restore"] = False
+            yield cand
+        if op["kind"] == "overlap":
+            if not op.get("serial", True):
+                cand = copy.deepcopy(scn)
+                cand["ops"][oi]["serial"] = True
+                yield cand
+            if list(op.get("exec_ms") or [0.0, 0.0]) != [0.0, 0.0]:
+                cand = copy.deepcopy(scn)
+                cand["ops"][oi]["exec_ms"] = [0.0, 0.0]
+                yield cand
+            for ri, spec in enumerate(op["runs"]):
+                for ei in range(len(spec.get("edits") or [])):
+                    cand = copy.deepcopy(scn)
+                    del cand["ops"][oi]["runs"][ri]["edits"][ei]
+                    yield cand
+                    if spec["edits"][ei]["kind"] == "write" and len(spec["edits"][ei]["lines"]) > 1:
+                        for li in range(len(spec["edits"][ei]["lines"])):
+                            cand = copy.deepcopy(scn)
+                            del cand["ops"][oi]["runs"][ri]["edits"][ei]["lines"][li]
+                            yield cand
+                for key, val in (("pre", 0.0), ("post", 0.0), ("how", "reload")):
+                    if spec.get(key, val) != val:
+                        cand = copy.deepcopy(scn)
+                        cand["ops"][oi]["runs"][ri][key] = val
+                        yield cand
+                if ri > 0 and spec.get("after", 0.0) not in (0.0, 0.25):
+                    cand = copy.deepcopy(scn)
+                    cand["ops"][oi]["runs"][ri]["after"] = 0.25
+                    yield cand
         if op["kind"] == "run" and op["how"] != "reload":
             cand = copy.deepcopy(scn)
             cand["ops"][oi]["how"] = "reload"
@@ -661,13 +870,16 @@ class _GlobShim:
         res = sorted(_real_glob.glob(pattern, *args, **kwargs))
         base = sim.world.pyscript_dir
         rel = os.path.relpath(pattern, base)
+        cur = sim.cur
+        epoch = sim.listing_epoch if cur is None else cur["epoch"]
         if len(res) > 1:
             perm = list(res)
-            random.Random(f"{sim.listing_seed}/{sim.listing_epoch}/{rel}").shuffle(perm)
+            random.Random(f"{sim.listing_seed}/{epoch}/{rel}").shuffle(perm)
             if perm != res:
                 sim.world.probe("listing_order_changed_visit_order")
             res = perm
-        sim.visited.extend(os.path.relpath(p, os.path.dirname(base)) for p in res)
+        (sim.visited if cur is None else cur["visited"]).extend(
+            os.path.relpath(p, os.path.dirname(base)) for p in res)
         return res
 
     def __getattr__(self, name):
@@ -689,8 +901,16 @@ class PkgSim:
         self.listing_seed = spec["listing_seed"] if order is None else order["listing_seed"]
         self.listing_epoch = 0
         self.visited: list[str] = []
-        self.runs: list[dict] = []
-        self.cur: dict | None = None
+        self.runs: list[dict] = []  # in the order in which the runs began (a run is complete when rec["done"])
+        self.active: list[dict] = []  # runs of install_requirements in progress (more than one: overlap group)
+        self.groups: list[dict] = []  # overlap groups as issued by the driver
+        # runs that really overlapped (each began while another one was in progress), judged as a whole at the
+        # quiescent point after the last of them has ended
+        self.clusters: list[dict] = []
+        self.cluster: dict | None = None
+        self.pip_lock: asyncio.Lock | None = None  # Home Assistant's pip lock (overlap groups with "serial")
+        self.pip_sessions = 0  # installer sessions in progress
+        self.seen_foreign: set = set()  # packages a completed run has seen at a version pyscript did not install
         self.world: "ReqWorld" | None = None
         self.model: dict[str, list[str]] = files_model(scn)
         self.eol = spec.get("eol", True)
@@ -708,6 +928,11 @@ class PkgSim:
         self.drifts: list[dict] = []
         self.config_changes = 0  # configuration changes since the last run (reach probe)
 
+    @property
+    def cur(self) -> dict | None:
+        """The run of install_requirements the calling task is in (None: outside any run)."""
+        return _CUR.get()
+
     # ------------------------------------------------------------ seams
     def installed_version(self, name):
         self.iv_calls += 1
@@ -722,46 +947,99 @@ class PkgSim:
         mode = self.pip.get("mode", "ok")
         return mode == "offline" or (mode == "pkgs" and pkg in (self.pip.get("pkgs") or []))
 
-    async def installer(self, hass, name, requirements, *args, **kwargs):
-        """homeassistant.requirements.async_process_requirements: every requirement that is not satisfied yet is
-        installed on its own; the ones that fail are collected and reported by RequirementsNotFound at the end."""
-        reqs = [str(r) for r in requirements]
-        if self.cur is None:
-            raise HarnessError("installer called outside install_requirements")
-        self.cur["calls"].append(reqs)
-        self.cur["caller"] = name
+    def _pip_plan(self, req: str):
+        """What pip would do with one requirement now: None (cannot parse / unknown), 'satisfied' or (pkg, target)."""
+        try:
+            parsed = Requirement(req)
+        except InvalidRequirement:
+            return None
+        pkg = parsed.name
+        if pkg not in self.index:
+            return None
+        have = self.table.get(pkg)
+        spec = str(parsed.specifier)
+        if spec.startswith("==") and "," not in spec and "*" not in spec:
+            target = spec[2:]
+            if have is not None and same_version(have[0], target):
+                return "satisfied"  # requirement already satisfied: pip is not even started
+        elif spec == "":
+            if have is not None:
+                return "satisfied"
+            target = self.index[pkg]
+        else:
+            if have is not None and parsed.specifier.contains(have[0], prereleases=True):
+                return "satisfied"
+            target = self.index[pkg]
+        return (pkg, target)
+
+    def _pip_apply(self, cur: dict, reqs: list[str]) -> None:
         for req in reqs:
-            try:
-                parsed = Requirement(req)
-            except InvalidRequirement:
-                self.cur["unparsable"].append(req)
+            plan = self._pip_plan(req)
+            if plan is None:
+                cur["unparsable"].append(req)
                 continue
-            pkg = parsed.name
-            if pkg not in self.index:
-                self.cur["unparsable"].append(req)
+            if plan == "satisfied":
                 continue
-            have = self.table.get(pkg)
-            spec = str(parsed.specifier)
-            if spec.startswith("==") and "," not in spec and "*" not in spec:
-                target = spec[2:]
-                if have is not None and same_version(have[0], target):
-                    continue  # requirement already satisfied: pip is not even started
-            elif spec == "":
-                if have is not None:
-                    continue
-                target = self.index[pkg]
-            else:
-                if have is not None and parsed.specifier.contains(have[0], prereleases=True):
-                    continue
-                target = self.index[pkg]
+            pkg, target = plan
             if self.pip_fails(pkg):
-                self.cur["pip_failed"].append(req)
+                cur["pip_failed"].append(req)
                 continue
             self.table[pkg] = [target, "pyscript"]
             self.last_py[pkg] = target
-            self.cur["installed"][pkg] = target
-        await asyncio.sleep(0)
-        failed = [r for r in reqs if r in self.cur["pip_failed"]]
+            self.seen_foreign.discard(pkg)
+            cur["installed"][pkg] = target
+
+    async def _pip_session(self, cur: dict, reqs: list[str], call: dict) -> None:
+        """One pip session of an overlap group: it takes (virtual) time, the packages appear in between."""
+        w = self.world
+        self.pip_sessions += 1
+        if self.pip_sessions > 1:
+            w.probe("overlap_two_installer_sessions_at_once")
+        try:
+            if call.get("pre", 0.0) > 0.0:
+                await asyncio.sleep(call["pre"])
+            self._pip_apply(cur, reqs)
+            if call.get("post", 0.0) > 0.0:
+                await asyncio.sleep(call["post"])
+            else:
+                await asyncio.sleep(0)
+        finally:
+            self.pip_sessions -= 1
+
+    async def installer(self, hass, name, requirements, *args, **kwargs):
+        """homeassistant.requirements.async_process_requirements: every requirement that is not satisfied yet is
+        installed on its own; the ones that fail are collected and reported by RequirementsNotFound at the end.
+
+        In an overlap group a session that has something to install takes the (virtual) time the scenario says;
+        Home Assistant runs one pip session at a time (``pip_lock``, re-checks what is missing once it has the
+        lock) - the scenario says whether that is modelled ("serial") or the sessions run side by side."""
+        reqs = [str(r) for r in requirements]
+        cur = self.cur
+        if cur is None:
+            raise HarnessError("installer called outside install_requirements")
+        cur["calls"].append(reqs)
+        cur["caller"] = name
+        call = _CALL.get()
+        cur["in_pip"] = True
+        try:
+            if call is None:
+                self._pip_apply(cur, reqs)
+                await asyncio.sleep(0)
+            elif all(self._pip_plan(r) in (None, "satisfied") for r in reqs):
+                self._pip_apply(cur, reqs)  # nothing to install (book-keeping of unparsable strings only)
+                await asyncio.sleep(0)
+            elif call["serial"]:
+                if self.pip_lock is None:
+                    self.pip_lock = asyncio.Lock()
+                if self.pip_lock.locked():
+                    self.world.probe("overlap_installer_session_waited")
+                async with self.pip_lock:
+                    await self._pip_session(cur, reqs, call)
+            else:
+                await self._pip_session(cur, reqs, call)
+        finally:
+            cur["in_pip"] = False
+        failed = [r for r in reqs if r in cur["pip_failed"]]
         if failed:
             from homeassistant.requirements import RequirementsNotFound
 
@@ -773,10 +1051,17 @@ class PkgSim:
 
         @functools.wraps(real)
         def probe(*args, **kwargs):
+            cur = self.cur
+            if cur is not None:
+                # the files are read now (the job runs inline): this is what the run has to resolve
+                cur["t_read"] = self.world.vts()
+                cur["lines"] = [ln for p in sorted(self.model) for ln in self.model[p]]
+                cur["files"] = {p: list(v) for p, v in sorted(self.model.items())}
+                cur["disk"] = {p: list(v) for p, v in sorted(variant_files(self.model, self.order).items())}
             res = real(*args, **kwargs)
-            if self.cur is not None:
-                self.cur["resolved"] = {str(k): v.get("version") for k, v in res.items()}
-                self.cur["resolved_installed"] = {str(k): v.get("installed_version") for k, v in res.items()}
+            if cur is not None:
+                cur["resolved"] = {str(k): v.get("version") for k, v in res.items()}
+                cur["resolved_installed"] = {str(k): v.get("installed_version") for k, v in res.items()}
             return res
 
         return probe
@@ -787,6 +1072,7 @@ class PkgSim:
         @functools.wraps(real)
         async def probe(hass, config_entry, pyscript_folder):
             rec = self.begin_run(config_entry)
+            token = _CUR.set(rec)
             try:
                 return await real(hass, config_entry, pyscript_folder)
             except Exception as exc:  # pylint: disable=broad-except
@@ -794,13 +1080,16 @@ class PkgSim:
                 rec["exc_type"] = type(exc).__name__
                 raise
             finally:
+                _CUR.reset(token)
                 self.end_run(rec, config_entry)
 
         return probe
 
     # ------------------------------------------------------------ run bookkeeping
     def begin_run(self, entry) -> dict:
-        if self.cur is not None:
+        call = _CALL.get()
+        group = None if call is None else call["group"]
+        if self.active and group is None:
             raise HarnessError("install_requirements re-entered")
         w = self.world
         self.listing_epoch += 1
@@ -813,7 +1102,12 @@ class PkgSim:
         rec = {
             "k": len(self.runs),
             "t": w.vts(),
-            "how": self.next_how,
+            "how": self.next_how if call is None else call["how"],
+            "done": False,
+            "group": None if group is None else group["g"],
+            "overlapped": False,
+            "epoch": self.listing_epoch,
+            "visited": [],
             "allow": bool(entry.data.get(CONF_ALLOW, False)),
             # UI entry: the setting is what the user chose in the UI, whatever yaml says
             "allow_expected": bool(w.cfg[CONF_ALLOW]) if self.ui else None,
@@ -832,7 +1126,25 @@ class PkgSim:
             "resolved": None,
             "exc": None,
         }
-        self.cur = rec
+        if self.active:
+            # another run is in progress: neither of them has the installed packages and the record for itself
+            w.probe("overlap_run_began_during_another")
+            if any(r.get("in_pip") for r in self.active):
+                w.probe("overlap_run_began_while_installer_busy")
+            elif any(r["resolved"] is None for r in self.active):
+                w.probe("overlap_run_began_during_glob_job")
+            rec["overlapped"] = True
+            for other in self.active:
+                other["overlapped"] = True
+            self.cluster["runs"].append(rec["k"])
+        else:
+            self.cluster = {"runs": [rec["k"]], "serial": None if group is None else group["serial"], "t": rec["t"],
+                            "table_before": rec["table_before"], "record_before": rec["record_before"],
+                            "last_py_before": rec["last_py_before"]}
+        self.active.append(rec)
+        self.runs.append(rec)
+        if group is not None:
+            group["runs"].append(rec["k"])
         return rec
 
     next_how = "setup"
@@ -840,11 +1152,26 @@ class PkgSim:
     def end_run(self, rec: dict, entry) -> None:
         rec["record_after"] = dict(entry.data.get(CONF_INSTALLED, {}))
         rec["table_after"] = {p: list(v) for p, v in sorted(self.table.items())}
-        rec["visited"] = list(self.visited)
         rec["t_end"] = self.world.vts()
+        rec["done"] = True
         self.record_last = dict(rec["record_after"])
-        self.cur = None
-        self.runs.append(rec)
+        self.active.remove(rec)
+        if not self.active:
+            if len(self.cluster["runs"]) > 1:
+                self.cluster.update({"t_end": rec["t_end"], "table_after": rec["table_after"],
+                                     "record_after": rec["record_after"]})
+                self.clusters.append(self.cluster)
+                self.world.probe("overlap_runs_really_overlapped")
+            self.cluster = None
+        if not rec["overlapped"] and not rec["exc"] and rec["allow"] and rec["resolved"] is not None:
+            # a completed run has looked at these packages: it had the opportunity to notice a take-over
+            ref = resolve(rec["lines"])
+            for name in sorted(set(ref["sel"]) - ref["open"]):
+                have = rec["table_before"].get(name)
+                last = rec["last_py_before"].get(name)
+                if have is not None and have[1] == "host" and last is not None and not same_version(have[0], last) \
+                        and self.table.get(name) == have:
+                    self.seen_foreign.add(name)
         flat = sorted(r for call in rec["calls"] for r in call)
         self.world.trace.append(["c20run", rec["k"], rec["how"], rec["t"], rec["allow"], rec["resolved"], flat,
                                  sorted(rec["record_after"].items()), rec["exc"], rec["visited"]])
@@ -1081,6 +1408,97 @@ def _failed_install_exc(rec: dict) -> bool:
     return bool(rec.get("exc")) and bool(rec.get("pip_failed")) and rec.get("exc_type") == "RequirementsNotFound"
 
 
+def apply_edit(w: "ReqWorld", sim: PkgSim, op: dict) -> bool:
+    """A change of the requirement files (op kinds write / delete). Returns whether the multiset changed."""
+    if op["kind"] == "write":
+        sim.model[op["path"]] = list(op["lines"])
+        sim.materialise()
+        w.fault("file_edit")
+        w.trace.append(["op", "write", w.vts(), op["path"], op["lines"]])
+        return True
+    if op["kind"] == "delete":
+        changed = sim.model.pop(op["path"], None) is not None
+        if changed:
+            w.probe("file_deleted_between_runs")
+        sim.materialise()
+        w.trace.append(["op", "delete", w.vts(), op["path"]])
+        return changed
+    raise HarnessError(f"unknown edit {op['kind']}")
+
+
+async def overlap_group(w: "ReqWorld", sim: PkgSim, op: dict, loaded: bool, pys) -> bool:
+    """Two or three runs of install_requirements issued while the earlier ones may still be suspended (in the glob
+    job or in the installer), possibly after an edit of the requirement files; returns at the quiescent point
+    after all of them have ended.  Returns whether the files were edited."""
+    loop = w.loop
+    group = {"g": len(sim.groups), "serial": bool(op.get("serial", True)), "runs": [], "t": w.vts()}
+    sim.groups.append(group)
+    w.probe("overlap_group")
+    w.probe("overlap_installer_serialised" if group["serial"] else "overlap_installer_concurrent")
+    w.trace.append(["op", "overlap", w.vts(), group["serial"], len(op["runs"])])
+    old_latency = loop.exec_latency
+    lo, hi = op.get("exec_ms") or (None, None)
+    if lo is not None:
+        loop.exec_latency = (lo * 1e-3, hi * 1e-3)  # how long executor jobs (the glob job) take in this group
+    edited = False
+
+    async def issue(call: dict):
+        _CALL.set(call)  # the task's own context
+        if call["how"] == "reload":
+            w.probe("reload_run")
+            await w.reload()
+        elif call["how"] == "direct":
+            w.probe("direct_call")
+            w.trace.append(["op", "direct", w.vts()])
+            await pys.install_requirements(w.hass, w.entry, w.pyscript_dir)
+        else:
+            raise HarnessError(f"unknown run kind {call['how']} in an overlap group")
+
+    tasks = []
+    try:
+        for i, spec in enumerate(op["runs"]):
+            if i > 0 and spec.get("after", 0.0) > 0.0:
+                await w.sleep(spec["after"])
+            for ed in spec.get("edits") or []:
+                if apply_edit(w, sim, ed):
+                    edited = True
+                    if sim.active:
+                        w.probe("overlap_files_edited_during_a_run")
+            how = spec.get("how", "reload")
+            if how not in ("reload", "direct"):
+                raise HarnessError(f"unknown run kind {how} in an overlap group")
+            if not loaded:
+                how = "direct"  # no reload service after a failed set-up
+            call = {"group": group, "how": how, "serial": group["serial"],
+                    "pre": float(spec.get("pre", 0.0)), "post": float(spec.get("post", 0.0))}
+            tasks.append(loop.create_task(issue(call)))
+            await asyncio.sleep(0)
+        results = await asyncio.gather(*tasks, return_exceptions=True)
+    finally:
+        loop.exec_latency = old_latency
+    await w.settle()
+    recs = [sim.runs[k] for k in group["runs"]]
+    if len(recs) != len(op["runs"]) or not all(r["done"] for r in recs) or sim.active:
+        raise HarnessError(f"overlap group of {len(op['runs'])} ran install_requirements {len(recs)} times")
+    raised = [r for r in recs if r["exc"]]
+    for res in results:
+        if isinstance(res, HarnessError):
+            raise res
+        if isinstance(res, BaseException):
+            if not raised:
+                raise HarnessError(f"a run of an overlap group raised outside install_requirements: {res!r}")
+            raised.pop(0)
+            w.trace.append(["op", "run_raised", w.vts(), type(res).__name__])
+    for rec in recs:
+        if rec["exc"] and not _failed_install_exc(rec):
+            sim.dead = True
+    group["t_end"] = w.vts()
+    flat = sorted(r for rec in recs for c in rec["calls"] for r in c)
+    w.trace.append(["c20group", group["g"], group["t"], group["t_end"], group["runs"],
+                    [r["overlapped"] for r in recs], flat, sorted(w.entry.data.get(CONF_INSTALLED, {}).items())])
+    return edited
+
+
 def run_world(scn: dict, order: dict | None, tier_conf: dict):
     """Execute the history in one world. Returns (world, sim, sweep violations)."""
     sim = PkgSim(scn, order)
@@ -1120,6 +1538,14 @@ def run_world(scn: dict, order: dict | None, tier_conf: dict):
                             and not same_version(sim.last_py.get(op["pkg"]), exp["v"]):
                         ver = exp["v"]
                         w.probe("host_installs_pinned_version")
+                if op.get("restore"):
+                    # the host happens to install the version pyscript installed last - after a completed run has
+                    # seen the package at another version (pyscript had the opportunity to notice the take-over)
+                    last = sim.last_py.get(op["pkg"])
+                    if op["pkg"] in sim.seen_foreign and last is not None and (had is None or had[1] == "host") \
+                            and not (had is not None and same_version(had[0], last)):
+                        ver = last
+                        w.probe("host_restores_version_pyscript_installed")
                 if had is not None and had[1] == "pyscript":
                     w.probe("external_upgrade_of_own")
                 sim.table[op["pkg"]] = [ver, "host"]
@@ -1173,18 +1599,19 @@ def run_world(scn: dict, order: dict | None, tier_conf: dict):
                     raise HarnessError(f"unknown config op {what}")
                 w.fault("config_change")
                 w.trace.append(["op", "config", w.vts(), what, op.get("v"), outcome])
-            elif kind == "write":
-                sim.model[op["path"]] = list(op["lines"])
-                sim.materialise()
-                dirty = True
-                w.fault("file_edit")
-                w.trace.append(["op", "write", w.vts(), op["path"], op["lines"]])
-            elif kind == "delete":
-                if sim.model.pop(op["path"], None) is not None:
-                    w.probe("file_deleted_between_runs")
+            elif kind in ("write", "delete"):
+                if apply_edit(w, sim, op):
                     dirty = True
-                sim.materialise()
-                w.trace.append(["op", "delete", w.vts(), op["path"]])
+            elif kind == "overlap":
+                n_run_ops += 1
+                if n_run_ops > MAX_RUN_OPS or sim.dead:
+                    w.trace.append(["op", "run_skipped", w.vts()])
+                    continue
+                if dirty and order is None:
+                    sweep(w, sim, tier_conf, sweep_viol)
+                    dirty = False
+                if await overlap_group(w, sim, op, loaded, pys):
+                    dirty = True
             elif kind == "run":
                 n_run_ops += 1
                 if n_run_ops > MAX_RUN_OPS or sim.dead:
@@ -1308,6 +1735,10 @@ def judge_run(rec: dict, ref: dict, universe: list[str], tainted: set, probe, op
     if open_ever is None:
         open_ever = set()
     open_ever |= ref["open"]
+    # a run that overlapped with another one had neither the installed packages nor the record for itself: what
+    # it resolved, whether it was allowed to install and what it asked the installer for are judged here, who
+    # owns what and the record are judged for the group as a whole (judge_group)
+    exclusive = not rec.get("overlapped")
     pip_failed = list(rec.get("pip_failed") or [])
     failed_pkgs = {_split_req(r)[0] for r in pip_failed}
     if pip_failed:
@@ -1364,6 +1795,8 @@ def judge_run(rec: dict, ref: dict, universe: list[str], tainted: set, probe, op
             elif not exp["pinned"] and ver is not None:
                 out.append({"class": "C20.wrong_version", "sig": {"form": form_of(ref, name), "kind": "installer_arg"},
                             "detail": f"{where}: installer got {req!r} for an unpinned requirement", "t": t})
+            if not exclusive:
+                continue
             have = before.get(name)
             if have is not None and have[1] == "pyscript" and name in failed_pkgs:
                 probe("install_failed_for_own_update")
@@ -1398,7 +1831,7 @@ def judge_run(rec: dict, ref: dict, universe: list[str], tainted: set, probe, op
             out.append({"class": "C20.unrequested_install", "sig": {},
                         "detail": f"{where}: installer called with {req!r}, which no requirement line asks for",
                         "t": t})
-    if rec["allow"] and not rec["exc"]:
+    if rec["allow"] and not rec["exc"] and exclusive:
         for name in sorted(sel):
             if name in ref["open"] or name in tainted:
                 continue
@@ -1423,19 +1856,39 @@ def judge_run(rec: dict, ref: dict, universe: list[str], tainted: set, probe, op
                                               f"{exp['v']!r}, but the installer was not called for it", "t": t})
             else:
                 probe("foreign_package_present")
-    # ---- record
-    after = rec["table_after"]
-    rec_after = rec["record_after"]
+                last = rec["last_py_before"].get(name)
+                if last is not None and same_version(have[0], last):
+                    # the host has the very version pyscript once installed (and knows it is not its own any more)
+                    probe("foreign_package_at_version_pyscript_installed")
+                    if exp["pinned"] and not same_version(exp["v"], have[0]):
+                        probe("foreign_package_at_version_pyscript_installed_pin_differs")
     for req in rec["unparsable"]:
         tainted.add(_split_req(req)[0])
+    if exclusive:
+        out.extend(judge_record(rec, ref, universe, tainted, probe, where, {}))
+    return out
+
+
+def judge_record(rec: dict, ref: dict, universe: list[str], tainted: set, probe, where: str, sig_all: dict,
+                 taint: bool = False) -> list:
+    """'pyscript's record of what it installed always matches what it installed' over one interval in which nothing
+    but pyscript touched the packages: a single run, or an overlap group from its start to the quiescent point
+    after its last run (``sig_all`` marks the latter in the signature)."""
+    out = []
+    sel = ref["sel"]
+    pip_failed = list(rec.get("pip_failed") or [])
+    failed_pkgs = {_split_req(r)[0] for r in pip_failed}
+    after = rec["table_after"]
+    rec_after = rec["record_after"]
     for name in sorted(set(universe) | set(rec_after)):
+        n_out = len(out)
         if name in tainted:
             continue
         if name not in universe:
             cls = ref["claims"].get(name)
             if cls is not None:
                 continue
-            out.append({"class": "C20.record_mismatch", "sig": {"kind": "unknown_key"},
+            out.append({"class": "C20.record_mismatch", "sig": {"kind": "unknown_key", **sig_all},
                         "detail": f"{where}: record holds {name!r}: {rec_after[name]!r}, which was never installed",
                         "t": rec["t_end"]})
             continue
@@ -1453,7 +1906,7 @@ def judge_run(rec: dict, ref: dict, universe: list[str], tainted: set, probe, op
             # pyscript installed this package in this run while the installation of another one failed, and its
             # record does not say so (no entry, or the stale entry of an earlier session): one signature; what it
             # does with the package in later runs is a consequence and not judged again
-            out.append({"class": "C20.record_mismatch", "sig": {"kind": "installed_but_not_recorded", **sig_x},
+            out.append({"class": "C20.record_mismatch", "sig": {"kind": "installed_but_not_recorded", **sig_x, **sig_all},
                         "detail": f"{where}: pyscript installed {name!r} {rec['installed'][name]} in this run but "
                                   f"the record after the run is {rec_after}{note}", "t": rec["t_end"]})
             tainted.add(name)
@@ -1467,25 +1920,66 @@ def judge_run(rec: dict, ref: dict, universe: list[str], tainted: set, probe, op
                     note += f" [record before the run: {name!r}: {prev!r}]"
                     probe("record_spelling_differs_from_installed")
                     tainted.add(name)
-                out.append({"class": "C20.record_mismatch", "sig": {"kind": "missing", "unpinned": unp, **sig_x},
+                out.append({"class": "C20.record_mismatch", "sig": {"kind": "missing", "unpinned": unp, **sig_x, **sig_all},
                             "detail": f"{where}: pyscript installed {name!r} {have[0]} (this run: "
                                       f"{name in rec['installed']}) but the record after the run is {rec_after}{note}",
                             "t": rec["t_end"]})
             elif not same_version(got, have[0]):
-                out.append({"class": "C20.record_mismatch", "sig": {"kind": "wrong_version", "unpinned": unp, **sig_x},
+                out.append({"class": "C20.record_mismatch", "sig": {"kind": "wrong_version", "unpinned": unp, **sig_x, **sig_all},
                             "detail": f"{where}: pyscript installed {name!r} {have[0]} but records {got!r}{note}",
                             "t": rec["t_end"]})
         elif got is not None:
             last = rec["last_py_before"].get(name)
             if name not in rec["record_before"]:
-                out.append({"class": "C20.record_mismatch", "sig": {"kind": "invented", "unpinned": unp, **sig_x},
+                out.append({"class": "C20.record_mismatch", "sig": {"kind": "invented", "unpinned": unp, **sig_x, **sig_all},
                             "detail": f"{where}: {name!r} (installed: {have}) is not pyscript's, yet it appears in the "
                                       f"record as {got!r}{note}", "t": rec["t_end"]})
             elif last is None or not same_version(got, last):
                 out.append({"class": "C20.record_mismatch",
-                            "sig": {"kind": "never_installed_that", "unpinned": unp, **sig_x},
+                            "sig": {"kind": "never_installed_that", "unpinned": unp, **sig_x, **sig_all},
                             "detail": f"{where}: record says {name!r} {got!r}; pyscript last installed {last!r}{note}",
                             "t": rec["t_end"]})
+        if taint and len(out) > n_out:
+            tainted.add(name)  # what later runs do with this package is a consequence
+    return out
+
+
+def judge_group(grp: dict, runs: list[dict], universe: list[str], tainted: set, probe) -> list:
+    """Overlapping runs, judged at the quiescent point after the last of them has ended (conservation): every
+    package the installer installed for pyscript is in the record with the installed version, nothing else is
+    claimed, and nothing the host owned at the start was changed.  Nothing but pyscript touches the packages
+    between the start of the group and that point."""
+    recs = [runs[k] for k in grp["runs"]]
+    ref = resolve(recs[-1]["lines"])
+    for rec in recs:
+        ref["claims"].update({k: v for k, v in resolve(rec["lines"])["claims"].items() if k not in ref["claims"]})
+    installed: dict = {}
+    pip_failed: list = []
+    for rec in recs:
+        installed.update(rec["installed"])
+        pip_failed.extend(r for r in rec["pip_failed"] if r not in pip_failed)
+    excs = [f"run {r['k']}: {r['exc']}" for r in recs if r["exc"]]
+    whole = {"t": grp["t"], "t_end": grp["t_end"], "table_before": grp["table_before"],
+             "table_after": grp["table_after"], "record_before": grp["record_before"],
+             "record_after": grp["record_after"], "last_py_before": grp["last_py_before"],
+             "installed": installed, "pip_failed": pip_failed, "exc": "; ".join(excs) or None}
+    mode = "installer sessions side by side" if grp["serial"] is False else "one installer session at a time"
+    story = "; ".join(f"run {r['k']} ({r['how']}) {r['t']}-{r['t_end']} s read {r['files']} called {r['calls']} "
+                      f"record after it {r['record_after']}" for r in recs)
+    where = f"overlapping runs {grp['runs']} ({mode}; {story}), at the quiescent point after them"
+    sig_all = {"overlap": True}
+    out = []
+    for name in sorted(installed):
+        had = grp["table_before"].get(name)
+        if name in tainted or name not in universe or had is None or had[1] != "host":
+            continue
+        out.append({"class": "C20.foreign_package_touched",
+                    "sig": {"recorded": name in grp["record_before"], **sig_all},
+                    "detail": f"{where}: {name!r} {had[0]} was installed by the host (record before: "
+                              f"{grp['record_before'].get(name)!r}) and pyscript's installer changed it to "
+                              f"{installed[name]!r}", "t": grp["t_end"]})
+        tainted.add(name)
+    out.extend(judge_record(whole, ref, universe, tainted, probe, where, sig_all, taint=True))
     return out
 
 
@@ -1538,6 +2032,9 @@ def judge_history(w: "ReqWorld", sim: PkgSim, scn: dict) -> tuple[list, dict]:
         ref = resolve(rec["lines"])
         sel = ref["sel"]
         out.extend(judge_run(rec, ref, universe, tainted, w.probe, open_ever))
+        for grp in sim.clusters:
+            if grp["runs"][-1] == rec["k"]:
+                out.extend(judge_group(grp, sim.runs, universe, tainted, w.probe))
         stats["installer_reqs"] += sum(len(c) for c in rec["calls"])
         if rec["allow"] and sel:
             stats["allowed_runs_with_reqs"] += 1
@@ -1611,12 +2108,34 @@ def compare_worlds(wa, sima, wb, simb) -> list:
             ta, tb = canon_table(ra["resolved"]) or {}, canon_table(rb["resolved"]) or {}
             names = sorted(k for k in set(ta) | set(tb) if ta.get(k) != tb.get(k))
             diffs.append(("resolved table", names[0] if names else "?", ra["resolved"], rb["resolved"]))
-        if fa != fb:
+        lone = not ra.get("overlapped") and not rb.get("overlapped")
+        if ra.get("overlapped") != rb.get("overlapped") and not diffs:
+            raise HarnessError("a run overlapped with another one in one world only without an observable difference")
+        if fa != fb and lone:
             names = sorted({_split_req(r)[0] for r in set(fa) ^ set(fb)})
             diffs.append(("installer calls", names[0] if names else "?", fa, fb))
-        if reca != recb:
+        if reca != recb and lone:
             names = sorted(k for k in set(reca) | set(recb) if reca.get(k) != recb.get(k))
             diffs.append(("record", names[0], ra["record_after"], rb["record_after"]))
+        ga = [g for g in sima.clusters if g["runs"][-1] == ra["k"]]
+        gb = [g for g in simb.clusters if g["runs"][-1] == rb["k"]]
+        if ga and gb and not diffs:
+            # overlapping runs: what was asked of the installer by all of them together and the record at the
+            # quiescent point after them
+            ka, kb = ga[0]["runs"], gb[0]["runs"]
+            fa = sorted(canon_req(r) for k in ka for c in sima.runs[k]["calls"] for r in c
+                        if _split_req(r)[0] not in skip)
+            fb = sorted(canon_req(r) for k in kb for c in simb.runs[k]["calls"] for r in c
+                        if _split_req(r)[0] not in skip)
+            reca = {k: canon_v(v) for k, v in sorted(ga[0]["record_after"].items()) if k not in skip}
+            recb = {k: canon_v(v) for k, v in sorted(gb[0]["record_after"].items()) if k not in skip}
+            if set(fa) != set(fb):
+                names = sorted({_split_req(r)[0] for r in set(fa) ^ set(fb)})
+                diffs.append(("installer calls of the overlapping runs", names[0] if names else "?", fa, fb))
+            if reca != recb:
+                names = sorted(k for k in set(reca) | set(recb) if reca.get(k) != recb.get(k))
+                diffs.append(("record after the overlapping runs", names[0], ga[0]["record_after"],
+                              gb[0]["record_after"]))
         if bool(ra["exc"]) != bool(rb["exc"]):
             diffs.append(("outcome", sorted(ref["open"])[0] if ref["open"] else "?", ra["exc"], rb["exc"]))
         if diffs:
